@@ -44,7 +44,7 @@ def generate(seed, tier):
         spec = gen_instance(rng, max_jobs=4, max_machines=4, max_ops=4)
         n = n_ops(spec)
         k = n if rng.random() < 0.5 else rng.randint(0, n)
-        return {"prop": PROP, "kind": "chart", "cfg": {"instance": spec, "xlim": rng.choice([None, None, "makespan+", 50]), "cmap": rng.choice(["viridis", "tab10"]),
+        return {"prop": PROP, "kind": "chart", "cfg": {"instance": spec, "xlim": rng.choice([None, None, "makespan+", "makespan-", 50]), "cmap": rng.choice(["viridis", "tab10"]),
                                                        "two_charts": rng.random() < 0.3},
                 "ops": [["dispatch", rng.randrange(64), rng.randrange(64), 0] for _ in range(k)]}
     long = r > 0.86
@@ -135,6 +135,8 @@ def execute_chart(case, ctx):
             m2.dispatch(j, p, mm)
         other = (d2, m2)
     xlim = cfg["xlim"]
+    if xlim == "makespan-":
+        xlim = max(1, mk // 2)  # a requested limit below the makespan: the axis ends there (a zoom on the beginning)
     if xlim == "makespan+":
         xlim = mk + 7
         if len(m.hist) % 2:
